@@ -323,8 +323,13 @@ inline void encode_rw(const Node& n, std::string& o, vf::Chooser& c, const RwOpt
           // unknown integer key: |key| >= 64 so it never collides with RFC 8618 or library keys
           if (c.coin()) put_head_min(e, UINT, 64 + c.range(0, 1000) + (uint64_t)i * 2000);
           else put_head_min(e, NINT, 63 + c.range(0, 1000) + (uint64_t)i * 2000);
-          GenOpts go; go.max_depth = ro.unknown_depth;
+          GenOpts go; go.max_depth = ro.unknown_depth < 3 ? ro.unknown_depth : 3;
           Node v = gen_item(c, go);
+          // deep nesting is produced as a linear chain (a bushy tree of that depth would be exponential)
+          for (unsigned dpt = 3; dpt < ro.unknown_depth; dpt++) {
+            uint64_t w = c.range(0, 2);
+            v = w == 0 ? mk_arr({v}) : w == 1 ? mk_map({mk_uint(dpt), v}) : mk_tag(dpt, v);
+          }
           RwStats dummy;
           RwOpts inner = ro; inner.insert_unknown = false;
           encode_rw(v, e, c, inner, dummy, nullptr);
